@@ -135,3 +135,12 @@ Theorem C07_row_operation_lossless : forall d ds cells od obs,
   S_cells cells obs = true /\ od = resolve_all d ds.
 Proof. exact row_operation_lossless. Qed.
 Print Assumptions C07_row_operation_lossless.
+
+(* a FrameGO grown block by block (setitem / extend / extend_items, TypeBlocks.append): the cached row dtype is the
+   blocks' dtype when they all agree and object otherwise, so consolidating a row (values, iter_array, transpose ...)
+   keeps every cell -- for every number and order of appended blocks *)
+Theorem C07_grown_row_no_loss : forall d ds d' v,
+  In d' (d :: ds) -> holds d' v = true -> to_object_ok d' v = true ->
+  survives (grown_loop d ds) (FromArr d' v) = true.
+Proof. exact grown_row_no_loss. Qed.
+Print Assumptions C07_grown_row_no_loss.
